@@ -71,7 +71,7 @@ func verifHarness_Z2_Corrupt() {
 	nVals := verifChoice("nvals", 4)
 	nMsg := verifChoice("nmsg", 3)
 	// one deviation from a consistent framing at a time
-	variant := verifChoice("variant", 13)
+	variant := verifChoice("variant", 15)
 	dTag, dVal, dMsg, odd, strMode, trunc := 0, 0, 0, 0, -1, false
 	switch variant {
 	case 1:
@@ -94,6 +94,11 @@ func verifHarness_Z2_Corrupt() {
 		trunc = true
 	case 12:
 		dVal = 8 // one whole value word more declared than present
+	}
+	// variants 13/14: the compressed size of the message / tags block is a full 10-byte varint (any 64-bit value)
+	bigAt := -1
+	if variant >= 13 {
+		bigAt = variant - 13
 	}
 	tags := nondetBytes("tags", nTags)
 	vals := nondetBytes("vals", 8*nVals+odd)
@@ -118,6 +123,23 @@ func verifHarness_Z2_Corrupt() {
 	if trunc {
 		blob = blob[:verifChoice("cut", len(blob))]
 	}
+	if bigAt >= 0 {
+		// locate the size byte of the chosen block and replace it by a 10-byte varint with symbolic payload bits
+		at := 3 + 2 + len(strBlk) + 1 // ver comp ntape | strDecl strLen strBlk | msgDecl -> msg block size
+		if bigAt == 1 {
+			at += 1 + 1 + len(msg) + 1 // msg size, type, payload | tagDecl -> tags block size
+		}
+		v := nondetU64("bigsize")
+		var enc []byte
+		for i := 0; i < 9; i++ {
+			enc = append(enc, byte(v>>(7*uint(i)))|0x80)
+		}
+		enc = append(enc, byte(v>>63))
+		nb := append([]byte{}, blob[:at]...)
+		nb = append(nb, enc...)
+		nb = append(nb, blob[at+1:]...)
+		blob = nb
+	}
 	s := NewSerializer()
 	var dst *ParsedJson
 	if verifChoice("havoc", 2) == 1 {
@@ -131,4 +153,34 @@ func verifHarness_Z2_Corrupt() {
 		verifReach("Z2.accepted")
 		verifTraverseAll(res)
 	}
+}
+
+// Z4: the outcome of Deserialize does not depend on what the reused destination or Serializer held before
+// (two runs on the same bytes: fresh objects vs havoc'd ones), for well-formed and corrupt blobs alike (C11, C15).
+func verifHarness_Z4_DstIndependence() {
+	nTags := verifChoice("ntags", 4)
+	nVals := verifChoice("nvals", 3)
+	tags := nondetBytes("tags", nTags)
+	vals := nondetBytes("vals", 8*nVals)
+	msg := nondetBytes("msg", 1)
+	nTape := nondetU8("ntape")
+	verifAssume(nTape <= 5)
+	blob := verifFrame(nondetU8("ver"), 0, nTape, 0, nil, 1, 0, msg, byte(nTags), 0, tags, byte(8*nVals), 0, vals)
+	s1 := NewSerializer()
+	r1, e1 := s1.Deserialize(blob, nil)
+	s2 := NewSerializer()
+	verifHavocSerializer(s2)
+	dst := verifHavocDst(4)
+	r2, e2 := s2.Deserialize(blob, dst)
+	verifReach("Z4.both")
+	verifAssert((e1 == nil) == (e2 == nil), "Deserialize accepts the same bytes with a reused destination/Serializer as with fresh ones")
+	if e1 != nil || e2 != nil {
+		return
+	}
+	verifReach("Z4.accepted")
+	same := len(r1.Tape) == len(r2.Tape) && verifBytesEq(r1.Message, r2.Message)
+	for i := 0; same && i < len(r1.Tape); i++ {
+		same = r1.Tape[i] == r2.Tape[i]
+	}
+	verifAssert(same, "and produces the same tape and string table")
 }
